@@ -81,7 +81,7 @@ def run(ctx):
     exe = ptgrun.build_driver(ctx, [e["prog"] for e in ents], "c15",
                               backends={e["prog"]["name"]: ("dynamic-hash-table" if i % 2 else "index-array")
                                         for i, e in enumerate(ents)})
-    lengths = [1, 2, 3, 5, 15, 16, 17, 20] if ctx.quick else list(range(1, 21)) + [16, 17, 32, 33]
+    lengths = [1, 2, 3, 4, 5, 8, 10, 15, 16, 17, 18, 20] if ctx.quick else list(range(1, 21)) + [16, 17, 32, 33]
     runs = []
     for k, n in enumerate(lengths):
         e = ents[k % len(ents)]
@@ -89,7 +89,8 @@ def run(ctx):
         ntasks = sum(len(jdfgen.Interp(member_prog(e["prog"], g)).order) for g in pools)
         runs.append({"prog": e["prog"], "pools": pools, "maxev": 2 * ntasks + 10, "entry": e})
     cfgs = [{"sched": "lfq", "cores": 4, "conc": 4}, {"sched": "ap", "cores": 1, "conc": 1},
-            {"sched": "spq", "cores": 2, "conc": 8}, {"sched": "ll", "cores": 16 if not ctx.quick else 6, "conc": 8}]
+            {"sched": "spq", "cores": 2, "conc": 8}, {"sched": "ll", "cores": 16 if not ctx.quick else 6, "conc": 8},
+            {"sched": "gd", "cores": 3, "conc": 2, "noise": 3}, {"sched": "ip", "cores": 4, "conc": 12, "noise": 8}]
     if not ctx.quick:
         cfgs += [{"sched": s, "cores": c, "conc": 4, "noise": i + 1}
                  for i, (s, c) in enumerate([("gd", 3), ("ip", 2), ("rnd", 4), ("pbq", 8), ("ltq", 2), ("lhq", 5), ("llp", 4)])]
